@@ -336,6 +336,11 @@ func (db *Database) node(hash common.Hash, cachegen uint16) node {
 // Node retrieves an encoded cached trie node from memory. If it cannot be found
 // cached, the method queries the persistent database for the content.
 func (db *Database) Node(hash common.Hash) ([]byte, error) {
+	// The zero hash is the key of the metaroot (a reference holder without a node): it is not a
+	// trie node and must not be encoded. A remote peer can ask for it (GetNodeDataMsg).
+	if hash == (common.Hash{}) {
+		return nil, fmt.Errorf("trie node %x not found", hash[:4])
+	}
 	// Retrieve the node from cache if available
 	db.lock.RLock()
 	node := db.nodes[hash]
